@@ -289,11 +289,11 @@ def run(ctx):
     ditems = []
     for isa in ("x86", "aarch64"):
         cs = codes(isa)
-        for mn in ("newop", "NEWOP", "add", "vaddpd"):
+        for mn in ("newop", "NEWOP", "add", "vaddpd", "cvtps2pd", "fcmlt"):
             for c in cs:
                 ditems.append((isa, (c,), mn))
             pairs = itertools.product(cs, repeat=2)
-            if mn in ("NEWOP",) and not ctx.thorough:
+            if mn in ("NEWOP", "cvtps2pd", "fcmlt") and not ctx.thorough:
                 pairs = itertools.product(cs[::3], repeat=2)
             for a, b in pairs:
                 ditems.append((isa, (a, b), mn))
